@@ -317,7 +317,7 @@ def run_scripts(ctx, exe, scripts, tag, what, replayed):
         with open(sp, "w") as f:
             for sc in shards[i]:
                 f.write(json.dumps(sc) + "\n")
-        rc, out = vlib.run_harness(exe, [sp, tp], timeout=1500)
+        rc, out = vlib.run_harness(exe, [sp, tp], timeout=900 if ctx.quick() else 3000)
         if os.path.exists(tp) and hasattr(vlib, "sanitize_trace"):
             vlib.sanitize_trace(tp)
         r = {"i": i, "rc": rc, "out": out, "trace": tp, "fault": None, "ok": False, "info": {}, "infra": None, "states": 0, "gen": 0}
@@ -355,12 +355,12 @@ def run_scripts(ctx, exe, scripts, tag, what, replayed):
 
     with cf.ThreadPoolExecutor(max_workers=k) as ex:
         res = sorted(ex.map(one, range(k)), key=lambda r: r["i"])
-    for r in res:
-        if r["infra"]:
-            raise vlib.Infra(r["infra"])
+    infra = [r["infra"] for r in res if r["infra"]]
     n_ok = 0
     verdict = True
     for r in res:
+        if r["infra"]:
+            continue
         ctx.states += r["states"]
         ctx.transitions += r["gen"]
         if r["ok"] and not r["fault"]:
@@ -379,6 +379,9 @@ def run_scripts(ctx, exe, scripts, tag, what, replayed):
         if r["fault"]:
             msg += " | " + r["fault"]
         ctx.violation(msg, replay)
+    if infra and verdict:                                   # an infrastructure failure of one shard does not hide the
+        raise vlib.Infra(infra[0])                          # rejection found in another one, but nothing passes with it
+    res = [r for r in res if not r["infra"]]
     if replayed:
         ctx.replays_ok += n_ok
     else:
